@@ -72,15 +72,18 @@ class TCPServer:
                     await self.protocol.initiate()
                     await self.idle_task.restart(task_group, self._idle_timeout)
                     await self._read_data()
+                    # The peer is gone, do not wait for the keep alive timeout
+                    self.reading = False
+                    await self.idle_task.stop()
+                    # The client may only have finished sending, what is
+                    # still being written to it is waited for here.
+                    await task_group.wait()
                 except asyncio.CancelledError:
                     # Cancelled (e.g. the graceful shutdown deadline has
                     # passed), there is no time left to wait for a client
                     # that does not read to take what is being written.
                     self.writer.transport.abort()
                     raise
-                # The peer is gone, do not wait for the keep alive timeout
-                self.reading = False
-                await self.idle_task.stop()
         except OSError:
             pass
         finally:
